@@ -164,6 +164,11 @@ ShiftIter(op, w, v, cin, n) == ShiftResult(op, w, v, cin, n, Iterate(op, w, v, c
 (* qmin is TRUE when the signed quotient is exactly -2^(w-1): the manual's *)
 (* text and pseudo-code disagree there, so both outcomes are accepted.     *)
 (***************************************************************************)
+\* Oracle decision 3 (DESIGN 7): the manual's text gives the IDIV quotient range as -(2^(w-1) - 1) .. 2^(w-1) - 1, its
+\* pseudo-code and the property ("a quotient that does not fit ends with INT 0"; DIV and IDIV "leave quotient and
+\* remainder") as every quotient that fits the destination.  -2^(w-1) fits: it must be delivered.  (TRUE = the earlier,
+\* looser reading that also accepted the divide error for exactly that quotient; seeded change C03-n passed under it.)
+AcceptMinQuotientTrap == FALSE
 MD(ax, dx, fl, def, undef, ok, qmin) ==
   [ax |-> ax, dx |-> dx, fl |-> fl, def |-> def, undef |-> undef, ok |-> ok, qmin |-> qmin]
 
